@@ -9,8 +9,10 @@
                   Every difference must be explained by exactly one narrow classifier (a documented choice of
                   the reference or one of the quirks Q1..Q7 of coq/Manifest/README.md); a quirk is reported as
                   KNOWN-FINDING only when known_findings.txt lists its id for C12, otherwise as a violation.
- rejects        : whatever the reference rejects must be rejected by the implementation with file:line."""
-import collections, concurrent.futures, os, re
+ rejects        : whatever the reference rejects must be rejected by the implementation with file:line.
+ replay         : --replay <file> runs the `case <scenario line>` lines of the file (format of findings/C12/*.scn).
+ C12_ASSUME_KNOWN=all | id,id,...  (testing aid) treats these quirk ids as listed in known_findings.txt."""
+import collections, concurrent.futures, os, re, shutil, tempfile
 import vlib, gen_manifest
 
 LEVEL = 'proof'
@@ -463,6 +465,16 @@ def run(ctx):
     if not ctx.model:
         ctx.violation('build', 'model\n', 'the extracted model could not be built', no_input=True); return
     mrun = os.path.join(os.path.dirname(ctx.model), 'manifest_run')
+    # private copies: the shared caches keep only the three newest builds and other checks rebuild them while this one runs
+    bindir = tempfile.mkdtemp(prefix='c12-bin-', dir=vlib.CACHE)
+    try:
+        impl = shutil.copy2(impl, os.path.join(bindir, 'impl_run'))
+        mrun = shutil.copy2(mrun, os.path.join(bindir, 'manifest_run'))
+        _run(ctx, impl, mrun)
+    finally:
+        shutil.rmtree(bindir, ignore_errors=True)
+
+def _run(ctx, impl, mrun):
     # ---- scenarios -----------------------------------------------------------------
     families = collections.OrderedDict()
     if ctx.replay:
@@ -470,7 +482,7 @@ def run(ctx):
         families['replay'] = len(scns)
     else:
         scns = list(PROBES.values()); families['quirk_probes'] = len(scns)
-        n = 9000 if ctx.quick() else 150000
+        n = 9000 if ctx.quick() else 120000
         g = gen_manifest.gen(ctx.seed, n)
         nspecial = len(gen_manifest.gen_special())
         families['special_families'] = min(nspecial, len(g)); families['random_bases_and_mutations'] = len(g) - families['special_families']
@@ -498,7 +510,7 @@ def run(ctx):
         return F.stop is not None and any(re.search(rb'pool[ ]*=[^\n]*\$\{?out', t) for t in scenario_files(scns[i]).values())
     ub = [i for i in ub if ub_expected(i)]
     if ub:
-        plain = os.path.join(vlib.build_impl('plain'), 'impl_run')
+        plain = shutil.copy2(os.path.join(vlib.build_impl('plain'), 'impl_run'), os.path.join(os.path.dirname(impl), 'impl_run_plain'))
         pout, perr = run_parallel(plain, 'manifest', [scns[i] for i in ub])
         if pout is not None:
             for i, p in zip(ub, pout):
@@ -552,7 +564,6 @@ def run(ctx):
                     linecheck[compare_lines(V, scn, scenario_files(scn), A, B)] += 1
                 else: linecheck['different defect named'] += 1
             else: stats['rejected_fatal_' + A['cls']] += 1
-        if not bok and aok: pass
         d = (sum(len(x) for x in V.quirk.values()) - nq, len(V.viol) - nv, sum(V.choice.values()) - nc)
         if a == s: stats['identical'] += 1
         elif d[1]: stats['VIOLATION'] += 1
